@@ -84,6 +84,14 @@ namespace adm {
       using AudioPackFormat::set;
 
       /**
+       * @brief Copy AudioPackFormatHoa
+       *
+       * The copy is an AudioPackFormatHoa with the same HOA parameters. This
+       * is not a deep copy! All referenced objects will be disconnected.
+       */
+      ADM_EXPORT std::shared_ptr<AudioPackFormat> copy() const override;
+
+      /**
        * @brief Print overview to ostream
        */
       ADM_EXPORT void print(std::ostream &os) const;
